@@ -27,7 +27,7 @@ def refVerdict (p : Program) : String :=
       match flow with
       | .normal =>
         let final := match p.stmts.getLast? with
-          | some (.exprS ..) => encVal (reify st.heap reifyDepth v)
+          | some (.exprS ..) => if v matches .other "poison" then "*" else encVal (reify st.heap reifyDepth v)
           | _ => "*"
         s!"m ok {final} obs={obsOf env} sp=0"
       | _ => "nopanic"
